@@ -29,6 +29,11 @@ Section Arr.
       cbn; try reflexivity. exfalso. destruct H as [H|[H|H]]; contradiction.
   Qed.
 
+  (* a[i] op= e  written so that the array occurs once: upd1f a i (fun v => v op e) *)
+  Definition upd1f (a : Z -> A) (i : Z) (f : A -> A) : Z -> A := upd1 a i (f (a i)).
+  Definition upd3f (a : Z -> Z -> Z -> A) (i j k : Z) (f : A -> A) : Z -> Z -> Z -> A :=
+    upd3 a i j k (f (a i j k)).
+
   (* Array literals: np.array([x0, ..., xn]) *)
   Definition arr_of_list (d : A) (l : list A) : Z -> A :=
     fun i => if Z.ltb i 0 then d else nth (Z.to_nat i) l d.
